@@ -219,7 +219,10 @@ def _run_program(prog, problems, s, sched_ref, f, con, twin, W, H, kind, auto, t
                     con.print(marker_renderable(op[1], op[2], styled))
                 elif k == "export":
                     # a clearing export from a thread: together with the final export it must account for every recorded line exactly once
-                    exports.append(con.export_html(clear=True) if op[1] == "html" else con.export_text(clear=True))
+                    if op[1] == "html-keep":
+                        con.export_html(clear=False)   # an export that keeps the record: the record must be as it was, in the file's order
+                    else:
+                        exports.append(con.export_html(clear=True) if op[1] == "html" else con.export_text(clear=True))
                 elif k == "big":
                     con.print(BigBlock(op[1], op[2]))
                 elif k == "stdout":
@@ -349,7 +352,7 @@ def _run_program(prog, problems, s, sched_ref, f, con, twin, W, H, kind, auto, t
 
         vis_file = "".join(SGR.visible(t) if "\x1b" in t else t for _, t in f.writes)
         rec = "".join(exports) + con.export_text()
-        if display is None and not exports and rec != vis_file:
+        if display is None and not exports and not any(o[0] == "export" for ops in prog["threads"] for o in ops) and rec != vis_file:
             problems.append(("record", "C11/record/content", "export_text() %r differs from the file %r (schedule %r)" % (rec, vis_file, s.trace[:6])))
         elif re.findall(r"M\d\d[a-d]", rec) != re.findall(r"M\d\d[a-d]", vis_file):
             # with a display the frames are control output (not recorded for Progress); the printed lines must still come in the file's order
@@ -402,6 +405,7 @@ def _run_program(prog, problems, s, sched_ref, f, con, twin, W, H, kind, auto, t
 
 PLAIN_PROGRAMS = [
     {"record": True, "threads": [[["print", 14, 1], ["print", 15, 1]], [["export", "html"], ["print", 16, 1]], [["export", "text"]]]},
+    {"record": True, "threads": [[["print", 17, 1], ["print", 18, 1]], [["export", "html-keep"], ["print", 19, 1]]]},
     {"record": True, "threads": [[["print", 1, 1], ["print", 2, 2]], [["print", 3, 1], ["log", 4]]]},
     {"record": False, "threads": [[["capture", [5, 6]], ["print", 7, 1]], [["print", 8, 2], ["capture", [9]]]]},
     {"record": True, "threads": [[["log", 10]], [["print", 11, 3]], [["print", 12, 1], ["print", 13, 1]]]},
@@ -560,7 +564,7 @@ class Generated(Part):
                             ms.append(mid[0])
                         ops.append(["capture", ms])
                     elif k == "export":
-                        ops.append(["export", draw(st.sampled_from(["html", "text"]))])
+                        ops.append(["export", draw(st.sampled_from(["html", "text", "html-keep"]))])
                     elif k == "update":
                         ops.append(["update", ["u%d" % i for i in range(draw(st.integers(0, 4)))], draw(st.booleans())])
                     elif k == "advance":
